@@ -206,8 +206,11 @@ class C01(Machine):
         ctx.max_ratio = 0.0
         with vclock.installed(ctx.clock, ctx.stats), quiet():
             grid, model, sf, source = self._problem(cfg)
+            # the checker keeps its own copies of what it hands to the
+            # solver: the oracle never reads the objects the solver saw
             st = {'prev': None, 'grid': grid, 'model': model, 'sf': sf,
-                  'cfg': cfg, 'source': source}
+                  'cfg': cfg, 'source': source, 'ref_model': model.copy(),
+                  'ref_s': np.array(sf.field, copy=True)}
             ctx.event('problem', {'shape': list(grid.shape_cells),
                                   'dtype': str(sf.field.dtype)})
             for i, op in enumerate(case['ops']):
@@ -221,7 +224,14 @@ class C01(Machine):
 
     def _update_model(self, ctx, st, op):
         """New conductivities in a sub-block of every property array."""
-        model = st['model']
+        for which in ('model', 'ref_model'):
+            self._update_one(st[which], op, 'array' if which == 'ref_model'
+                             else op['how'])
+        ctx.stats.probe('model_updated/' + op['how'])
+        ctx.nontrivial = True
+        ctx.event('update_model', op['how'])
+
+    def _update_one(self, model, op, how):
         g = np.random.default_rng(op['seed'])
         nx, ny, nz = model.shape
         sl = (slice(0, max(1, nx // 2)), slice(ny // 3, ny),
@@ -236,15 +246,12 @@ class C01(Machine):
                    'LgResistivity': -np.log10(cond),
                    'LnConductivity': np.log(cond),
                    'LnResistivity': -np.log(cond)}[model.map.name]
-            if op['how'] == 'array':
+            if how == 'array':
                 arr[sl] = new
             else:
                 full = np.array(arr)
                 full[sl] = new
                 setattr(model, name, full)
-        ctx.stats.probe('model_updated/' + op['how'])
-        ctx.nontrivial = True
-        ctx.event('update_model', op['how'])
 
     def _supplied(self, st, op):
         import emg3d
@@ -371,6 +378,7 @@ class C01(Machine):
         out, env = self._invoke(ctx, st, op, sup, op['return_info'])
         for f in env['fired']:
             ctx.stats.fault(f)
+        self._inputs_untouched(st)
         # the twin call (same inputs, same environment) gives the verdict
         # when the caller did not ask for it
         if op['return_info']:
@@ -416,7 +424,8 @@ class C01(Machine):
                             'and return_info=True', quantity='field',
                             op='solve')
         # ---- the oracle
-        s = np.asarray(sf.field)
+        s = st['ref_s']
+        model = st['ref_model']
         n = float(np.linalg.norm(s))
         zero_src = n < 1e-300
         exit_, msg = int(info['exit']), info['exit_message']
@@ -497,6 +506,25 @@ class C01(Machine):
                             'it': [int(info['it_mg']), int(info['it_ssl'])],
                             'fired': env['fired']})
         st['prev'] = e.copy() if finite else None
+
+    def _inputs_untouched(self, st):
+        """The solver must not change the model or the source handed in."""
+        m, r = st['model'], st['ref_model']
+        for name in ('property_x', 'property_y', 'property_z', 'mu_r',
+                     'epsilon_r'):
+            a, b = getattr(m, name), getattr(r, name)
+            if (a is None) != (b is None) or (
+                    a is not None and ahash(a) != ahash(b)):
+                raise Violation(
+                    'input_mutated',
+                    f'solve changed model.{name} of the model handed in '
+                    f'(mapping {m.map.name}); later calls with the same '
+                    f'object solve another system', quantity='model',
+                    op='solve')
+        if ahash(np.asarray(st['sf'].field)) != ahash(st['ref_s']):
+            raise Violation('input_mutated',
+                            'solve changed the source field handed in',
+                            quantity='sfield', op='solve')
 
     def _held(self, op, sup, ret):
         """The Field object the caller ends up with, per the documentation."""
